@@ -13,9 +13,10 @@ type A = Dna;
 const G: i64 = 4; // matrix cells are multiples of 1/4
 
 struct Case {
-    cells: Vec<Vec<i64>>, // grid units (1/4), 4 nucleotide columns
+    cells: Vec<Vec<i64>>, // grid units (1/g), 4 nucleotide columns
     bn: Vec<i64>,
     bd: i64,
+    g: i64,               // 4 (default) or 16 (fine grid: larger rounding errors in TFM-PVALUE)
 }
 
 fn gen_case(rng: &mut impl Rng, m: usize, kind: usize) -> Case {
@@ -32,13 +33,13 @@ fn gen_case(rng: &mut impl Rng, m: usize, kind: usize) -> Case {
         2 => (vec![3, 2, 2, 3], 10),
         _ => (vec![1, 3, 3, 1], 8),
     };
-    Case { cells, bn, bd }
+    Case { cells, bn, bd, g: G }
 }
 
 fn build(c: &Case) -> ScoringMatrix<A> {
     let mut d = DenseMatrix::<f32, <A as Alphabet>::K>::new(c.cells.len());
     for (i, row) in c.cells.iter().enumerate() {
-        for (j, &x) in row.iter().enumerate() { d[i][j] = x as f32 / G as f32; }
+        for (j, &x) in row.iter().enumerate() { d[i][j] = x as f32 / c.g as f32; }
         d[i][4] = f32::NEG_INFINITY;
     }
     let mut f: Vec<f32> = c.bn.iter().map(|&x| x as f32 / c.bd as f32).collect();
@@ -123,6 +124,28 @@ pub fn record_c11(rec: &mut Recorder, seed: u64, thorough: bool) {
 
 // ------------------------------------------------------------------------------------------ C12 / C13
 
+fn fine_case(rng: &mut impl Rng, it: usize) -> Case {
+    let m = 2 + it % 4; // 2..5
+    let mut c = gen_case(rng, m, it);
+    c.g = 16;
+    for row in c.cells.iter_mut() { for x in row.iter_mut() { *x = rng.gen_range(-48..=48); } }
+    c
+}
+
+/// exact tail numerators (over bd^M) of every attainable score, in decreasing score order
+fn tails(c: &Case) -> Vec<(i64, i64)> {
+    let mut dist: std::collections::BTreeMap<i64, i64> = [(0, 1)].into_iter().collect();
+    for row in &c.cells {
+        let mut n = std::collections::BTreeMap::new();
+        for (&a, &w) in &dist { for (k, &x) in row.iter().enumerate() { *n.entry(a + x).or_insert(0) += w * c.bn[k]; } }
+        dist = n;
+    }
+    let mut out = Vec::new();
+    let mut acc = 0i64;
+    for (&sc, &w) in dist.iter().rev() { acc += w; out.push((sc, acc)); }
+    out
+}
+
 fn tfm_case(rng: &mut impl Rng, it: usize) -> Case {
     let m = 2 + it % 5; // 2..6
     gen_case(rng, m, it)
@@ -132,9 +155,10 @@ pub fn record_c12(rec: &mut Recorder, seed: u64, thorough: bool) {
     let mut rng = rng(seed, 12);
     let n = if thorough { 260 } else { 60 };
     for it in 0..n {
-        let c = tfm_case(&mut rng, it);
+        let c = if it % 3 == 2 { fine_case(&mut rng, it) } else { tfm_case(&mut rng, it) };
         let dn = den(&c);
         let att = attainable(&c);
+        let u = 2 * c.g;   // query scores in units of 1/(2g): on the grid and half a step above it
         let (lo, hi) = (att[0], att[att.len() - 1]);
         // queries in units of 1/8: below min, above max, attainable, just above an attainable value
         let mut qs: Vec<i64> = vec![2 * lo - 16, 2 * lo - 1, 2 * lo, 2 * hi, 2 * hi + 1, 2 * hi + 24];
@@ -145,20 +169,21 @@ pub fn record_c12(rec: &mut Recorder, seed: u64, thorough: bool) {
             let r = guarded(|| {
                 let mut t = TfmPvalue::new(&pssm);
                 let mut iters = Vec::new();
-                for (k, it) in t.approximate_pvalue(s8 as f64 / 8.0).enumerate() {
+                for (k, it) in t.approximate_pvalue(s8 as f64 / u as f64).enumerate() {
                     let (a, ea) = num(*it.range.start(), dn);
                     let (b, eb) = num(*it.range.end(), dn);
                     let gk = (1.0 / it.granularity).round() as i64; // 10^k
                     iters.push(json!({"k": k + 1, "ginv": gk, "pmin": a, "pmax": b, "exact": if ea && eb {1} else {0}, "conv": it.converged}));
-                    if k >= 5 { break; }
+                    if k >= 4 { break; }
                 }
                 iters
             });
             rec.reset();
             rec.class("tfm_pvalue");
+            if c.g == 16 { rec.class("fine_grid_matrix"); }
             rec.class(if s8 < 2 * lo { "below_min" } else if s8 > 2 * hi { "above_max" } else if s8 % 2 == 0 { "on_grid" } else { "just_above_grid" });
             rec.nontrivial(&(c.cells.clone(), c.bn.clone(), s8));
-            let mut e = json!({"ev":"tfm_pvalue","K":5,"pssm":pssm_json(&c),"bn":bn5(&c),"bd":c.bd,"den":dn as i64,"s8":s8});
+            let mut e = json!({"ev":"tfm_pvalue","K":5,"G":c.g,"pssm":pssm_json(&c),"bn":bn5(&c),"bd":c.bd,"den":dn as i64,"s8":s8});
             match r { Ok(v) => { e["ret"] = json!("ok"); e["iters"] = json!(v); } Err(msg) => { e["ret"] = json!("panic"); e["msg"] = json!(msg); e["iters"] = json!([]); } }
             rec.emit(e);
         }
@@ -167,31 +192,42 @@ pub fn record_c12(rec: &mut Recorder, seed: u64, thorough: bool) {
 
 pub fn record_c13(rec: &mut Recorder, seed: u64, thorough: bool) {
     let mut rng = rng(seed, 13);
-    let n = if thorough { 260 } else { 60 };
+    let n = if thorough { 260 } else { 70 };
     for it in 0..n {
-        let c = tfm_case(&mut rng, it);
+        let c = if it % 2 == 1 { fine_case(&mut rng, it) } else { tfm_case(&mut rng, it) };
         let dn = den(&c) as i64;
         let pssm = build(&c);
-        // p-values: attainable tails (k / bd^M for the exact tail numerators would need the distribution;
-        // use fractions with small denominators and their neighbours instead)
-        let ps: Vec<(i64, i64)> = vec![(1, 2), (1, 4), (1, 8), (1, 10), (1, 100), (3, 4), (9, 10), (1, 3), (2, 3), (1, 1000), (99, 100), (1, dn.min(1000)), (5, 8)];
-        for &(pn, pd) in ps.iter().take(if thorough { 13 } else { 8 }) {
+        // p-values: small fractions, and (quantifier of C13) attainable tail probabilities n / den and the
+        // midpoints (2n + 1) / (2 den) between them; p = pn / (pc * den) when pc > 0, pn / pd otherwise
+        let mut ps: Vec<(i64, i64, i64)> = vec![(1, 2, 0), (1, 10, 0), (3, 4, 0), (1, 3, 0), (1, 1000.min(dn), 0)];
+        let tl = tails(&c);
+        let mut picks: Vec<usize> = (0..tl.len().saturating_sub(1)).collect();
+        while picks.len() > (if thorough { 40 } else { 16 }) { let j = rng.gen_range(0..picks.len()); picks.remove(j); }
+        for j in picks {
+            let nn = tl[j].1;
+            if nn > 0 && nn < dn { ps.push((nn, 0, 1)); ps.push((2 * nn + 1, 0, 2)); if nn > 1 { ps.push((2 * nn - 1, 0, 2)); } }
+        }
+        for &(pn, pd, pc) in ps.iter() {
+            let p = if pc > 0 { pn as f64 / (pc * dn) as f64 } else { pn as f64 / pd as f64 };
+            if !(p > 0.0 && p < 1.0) { continue; }
             let r = guarded(|| {
                 let mut t = TfmPvalue::new(&pssm);
                 let mut iters = Vec::new();
-                for (k, it) in t.approximate_score(pn as f64 / pd as f64).enumerate() {
+                for (k, it) in t.approximate_score(p).enumerate() {
                     let gk = (1.0 / it.granularity).round() as i64;
                     let tk = (it.score / it.granularity).round();
                     let off = (it.score / it.granularity - tk).abs() > 1e-3;
                     iters.push(json!({"k": k + 1, "ginv": gk, "tk": tk as i64, "offgrid": if off {1} else {0}, "conv": it.converged}));
-                    if k >= 5 { break; }
+                    if k >= 4 { break; }
                 }
                 iters
             });
             rec.reset();
             rec.class("tfm_score");
-            rec.nontrivial(&(c.cells.clone(), c.bn.clone(), pn, pd));
-            let mut e = json!({"ev":"tfm_score","K":5,"pssm":pssm_json(&c),"bn":bn5(&c),"bd":c.bd,"den":dn,"pn":pn,"pd":pd});
+            rec.class(if pc > 0 { "p_attainable_tail_or_midpoint" } else { "p_small_fraction" });
+            if c.g == 16 { rec.class("fine_grid_matrix"); }
+            rec.nontrivial(&(c.cells.clone(), c.bn.clone(), pn, pd, pc));
+            let mut e = json!({"ev":"tfm_score","K":5,"G":c.g,"pssm":pssm_json(&c),"bn":bn5(&c),"bd":c.bd,"den":dn,"pn":pn,"pd":pd.max(1),"pc":pc});
             match r { Ok(v) => { e["ret"] = json!("ok"); e["iters"] = json!(v); } Err(msg) => { e["ret"] = json!("panic"); e["msg"] = json!(msg); e["iters"] = json!([]); } }
             rec.emit(e);
         }
